@@ -181,17 +181,22 @@ class MacroProcessor:
                 start_date = datetime.strptime(match.group(1), "%Y-%m-%d")
                 amount = int(match.group(2))
                 unit = match.group(3)
-                if unit == "d":
-                    end_date = start_date + relativedelta(days=amount)
-                elif unit == "w":
-                    end_date = start_date + relativedelta(weeks=amount)
-                elif unit == "m":
-                    end_date = start_date + relativedelta(months=amount)
-                elif unit == "y":
-                    end_date = start_date + relativedelta(years=amount)
-                else:
-                    end_date = start_date
-                self._project_end = end_date.strftime("%Y-%m-%d")
+                try:
+                    if unit == "d":
+                        end_date = start_date + relativedelta(days=amount)
+                    elif unit == "w":
+                        end_date = start_date + relativedelta(weeks=amount)
+                    elif unit == "m":
+                        end_date = start_date + relativedelta(months=amount)
+                    elif unit == "y":
+                        end_date = start_date + relativedelta(years=amount)
+                    else:
+                        end_date = start_date
+                    self._project_end = end_date.strftime("%Y-%m-%d")
+                except (ValueError, OverflowError):
+                    # An end beyond the calendar: ${projectend} stays undefined here,
+                    # the project header itself is rejected by the builder
+                    pass
 
         # Look for 'now' attribute
         match = re.search(r"now\s+(\d{4}-\d{2}-\d{2})", content)
